@@ -213,6 +213,10 @@ func tryCreateTimestamp(ts []int, nsecs int, overflow bool, offset, sign int64, 
 	if ts[0] != date.Year() || time.Month(ts[1]) != date.Month() || ts[2] != date.Day() {
 		return Timestamp{}, fmt.Errorf("ion: invalid timestamp")
 	}
+	// time.Date normalizes out-of-range values, so 12:60 would silently become 13:00.
+	if ts[3] > 23 || ts[4] > 59 || ts[5] > 59 {
+		return Timestamp{}, fmt.Errorf("ion: invalid timestamp")
+	}
 
 	if precision <= TimestampPrecisionDay {
 		return NewDateTimestamp(date, precision), nil
